@@ -82,7 +82,8 @@ def gen_hook(sc, cfg):
             return ops[0]
         if r < 0.85:
             return {'op': 'frameval', 't': OFF, '_hostile': True,
-                    'v': rng.choice([b'', b'\x00\x01', b'2["msg"]', 1, True, 5, 6, 3, 2, 0, None, 7, -1, False, [], {}])}
+                    'v': rng.choice([b'', b'\x00\x01', b'2["msg"]', b'1', b'0', b'2', b'3', b'5', b'6', b'4', b'9',
+                                     1, True, 5, 6, 3, 2, 0, None, 7, -1, False, [], {}])}
         alpha = list('0123456789') + list('-,/?[]{}":aZ٣²x ') + ['["msg"]', '{"_placeholder":true,"num":0}', '/a,']
         return {'op': 'frame', 't': OFF, 'text': ''.join(rng.choice(alpha) for _ in range(rng.randint(1, 14))),
                 '_hostile': True}
@@ -291,6 +292,11 @@ def two_run(cfg, trace, info, server_opts):
             if op['op'] == 'lost' and op.get('t') == OFF:
                 cf.drop(OFF)
             continue
+        stray = (not server_opts and op['op'] == 'frameval' and isinstance(op['v'], (bytes, bytearray)) and op['v']
+                 and OFF not in cf.pend)
+        if stray and (im['invokes'] or im['sends']):
+            fails.append((None, 'a stray binary frame (no binary packet pending) was decoded and acted upon: %r -> invokes %r, '
+                                'packets %r' % (op['v'], im['invokes'], im['sends'])))
         if not server_opts and cf.feed(op) == 'undecodable' and im['invokes']:
             fails.append((None, 'a packet that cannot be decoded (text frame + attachments do not reconstruct) reached an '
                                 'application handler: %r -> %r' % (S._brief(op), im['invokes'])))
